@@ -69,7 +69,7 @@ func (x *FnExec) call(in ssa.Instruction, c *ssa.CallCommon, st *State) (Val, bo
 			x.eng.usedPure(calleeName)
 			return x.packResults(sig, rs), true
 		}
-		if x.eng.cs.KeeperIfaces[typeKey(c.Value.Type())] {
+		if x.eng.cs.KeeperIfaces[typeKey(c.Value.Type())] || isStoreIterator(c.Value.Type()) {
 			// a keeper interface: works on stores, assumed not to touch caller-visible memory; may panic
 			pb := x.ctx.Fresh("panics", SBool)
 			x.panicIf(st, pb, "keeper interface call "+shortName(calleeName)+" may panic")
@@ -858,4 +858,25 @@ func (x *FnExec) restoreImmutableGlobals(st *State, old map[string]Term) {
 			}
 		}
 	}
+}
+
+// isStoreIterator: a KV-store iterator interface (Next/Valid/Key/Value/Close). Its methods read
+// the store and advance a cursor; they are assumed not to touch memory the caller can see.
+func isStoreIterator(t types.Type) bool {
+	it, ok := t.Underlying().(*types.Interface)
+	if !ok {
+		return false
+	}
+	need := map[string]bool{"Next": false, "Valid": false, "Key": false, "Value": false, "Close": false}
+	for i := 0; i < it.NumMethods(); i++ {
+		if _, ok := need[it.Method(i).Name()]; ok {
+			need[it.Method(i).Name()] = true
+		}
+	}
+	for _, v := range need {
+		if !v {
+			return false
+		}
+	}
+	return true
 }
